@@ -225,3 +225,6 @@ def run_proofs(ctx):
 
     reg3, cs3 = c02.build()
     run_contracts(ctx, cs3, reg3, workloads=c02.workloads(), concrete_env=c02.CONCRETE_ENV)
+    from vf.proofs.terms import run_terms
+
+    run_terms(ctx, "C10")
